@@ -11,11 +11,15 @@ self-test and the seeded-change runner analyse a modified tree without touching 
 from __future__ import annotations
 
 import ast
+import functools
 import hashlib
 import os
 from dataclasses import dataclass, field
 from typing import Dict, Iterator, List, Optional, Tuple
 
+
+from .canon import canonicalise  # noqa: E402
+from .alpha import normalise as alpha_normalise  # noqa: E402
 
 class AnalysisError(Exception):
     """The analysis cannot proceed (anchor vanished, construct outside the fragment)."""
@@ -25,12 +29,64 @@ class AnchorMissing(AnalysisError):
     pass
 
 
-def norm(node: ast.AST) -> str:
-    """Normalised text of a node: formatting / comments / positions do not matter."""
+@functools.lru_cache(maxsize=20000)
+def canon_text(text: str) -> str:
+    """Canonical spelling (armiverif/canon.py) of a source fragment given as text; fragments that do not parse as
+    statements/expressions are returned unchanged."""
     try:
-        return ast.unparse(node)
+        tree = ast.parse(text)
+    except SyntaxError:
+        return text
+    from .canon import canonicalise
+
+    try:
+        return ast.unparse(canonicalise(tree))
     except Exception:  # pragma: no cover
-        return ast.dump(node)
+        return text
+
+
+class CanonText(str):
+    """Text of a node of a CANONICALISED tree. Comparing it with (or searching it for) a fragment written in any
+    equivalent spelling first brings that fragment to the canonical spelling, so a rule's reference fragments do not
+    depend on operand order of commutative constants, keyword order, `if not` polarity etc."""
+    __slots__ = ()
+
+    def __eq__(self, other):
+        if isinstance(other, str) and not isinstance(other, CanonText):
+            return str.__eq__(self, other) or str.__eq__(self, canon_text(other))
+        return str.__eq__(self, other)
+
+    def __ne__(self, other):
+        return not self.__eq__(other)
+
+    __hash__ = str.__hash__
+
+    def __contains__(self, item):
+        if str.__contains__(self, item):
+            return True
+        if isinstance(item, str) and not isinstance(item, CanonText):
+            c = canon_text(item)
+            return c != item and str.__contains__(self, c)
+        return False
+
+    def startswith(self, prefix, *a):
+        if str.startswith(self, prefix, *a):
+            return True
+        return isinstance(prefix, str) and str.startswith(self, canon_text(prefix), *a)
+
+    def endswith(self, suffix, *a):
+        if str.endswith(self, suffix, *a):
+            return True
+        return isinstance(suffix, str) and str.endswith(self, canon_text(suffix), *a)
+
+
+def norm(node: ast.AST) -> str:
+    """Normalised text of a node: formatting / comments / positions do not matter, and (the trees being canonical)
+    neither does the spelling of what canon.py normalises."""
+    try:
+        return CanonText(ast.unparse(node))
+    except Exception:  # pragma: no cover
+        return CanonText(ast.dump(node))
 
 
 def dotted(node: ast.AST) -> Optional[str]:
@@ -239,7 +295,8 @@ class Index:
                 continue
             src = self.read(rel)
             try:
-                tree = ast.parse(src, filename=rel)
+                tree = canonicalise(ast.parse(src, filename=rel))
+                tree, _ = alpha_normalise(tree, rel)
             except SyntaxError as e:
                 self.parse_errors.append(f"{rel}: {e}")
                 continue
